@@ -1425,6 +1425,12 @@ impl<'a, R: FileManager> FrontendCtx<'a, R> {
         }
 
         let inferred = self.extract_ts_type_lit_members(&typ.body.body, file.clone());
+        // the `extends` clause may mention the type parameters as well (interface C<T> extends P<T>)
+        let ext = if typ.extends.is_empty() {
+            Ok(vec![])
+        } else {
+            self.extract_interface_extends(&typ.extends, file.clone())
+        };
 
         for _ in type_params {
             self.type_application_stack.pop();
@@ -1435,7 +1441,7 @@ impl<'a, R: FileManager> FrontendCtx<'a, R> {
         let runtype = if typ.extends.is_empty() {
             r
         } else {
-            let ext = self.extract_interface_extends(&typ.extends, file.clone())?;
+            let ext = ext?;
             let merged = Runtype::all_of(ext.into_iter().chain(std::iter::once(r?)).collect());
             let res = self.extract_object_from_runtype(&merged, &anchor);
             match res {
